@@ -295,6 +295,12 @@ def boom(x):
     raise ValueError("boom on %s" % _r(x))
 
 
+def boom0(x):
+    """fails without saying anything (a bare assert, raise ValueError())"""
+    _log("boom0")
+    raise ValueError()
+
+
 def needs(x, required):
     _log("needs")
     return "%s|%s" % (_r(x), _r(required))
@@ -390,7 +396,7 @@ def after3(x):
 
 
 FIRST = [one, lit, num, flt, mk, firstcat]
-DATA = [add, mulf, flagged, pair, none_default, optint, optfb, unann, cat, ident, withctx, ctxvar, sub, subin, nocache, recache, ctxmut, boom, needs,
+DATA = [add, mulf, flagged, pair, none_default, optint, optfb, unann, cat, ident, withctx, ctxvar, sub, subin, nocache, recache, ctxmut, boom, boom0, needs,
         push, setkey, dfcol, deepmut, argmut, after1, after2, after3]
 STATE = [getvar, tag, mutvar]
 ATTRS = {"attr_up": dict(ABC="abc"), "attr_low": dict(abc="x"), "vol": dict(volatile=True),
